@@ -236,7 +236,7 @@ def stepLine (s : St) (line : String) : St × String :=
         else
           let st' := updateEstimate s.params obj s.start st
           -- bound: |λ| + |u| with u the additive update before clamping
-          let x := currentImage obj first before
+          let x := currentImage obj before
           let D := denomUsed obj first x s.denom
           let zeta := relaxation s.alpha s.gamma st.k s.ns
           let u := List.zipWith (fun gj dj => gj * (s.ns : Rat) / dj * zeta) g D
